@@ -10,7 +10,9 @@ import subprocess
 import sys
 
 VERIF = os.path.dirname(os.path.dirname(os.path.abspath(__file__)))
-REPO = os.environ.get('VERIF_REPO', '/repo')     # a scratch clone may be used so that several tools can run at once
+REPO = os.environ.get('VERIF_REPO', '/repo')
+import tempfile
+EVDIR = tempfile.mkdtemp(prefix='o1722v-ev-')     # a scratch clone may be used so that several tools can run at once
 
 
 def sh(cmd, cwd=None, timeout=900):
@@ -51,7 +53,7 @@ def main():
             hit = None
             codes = []
             for c in checks + [x for x in want if x not in checks][:1]:
-                rc, out = sh('VERIF_TIME_BUDGET=400 ./check %s --tier quick' % c, cwd=VERIF, timeout=500)
+                rc, out = sh('VERIF_EVIDENCE_DIR=%s VERIF_TIME_BUDGET=400 ./check %s --tier quick' % (EVDIR, c), cwd=VERIF, timeout=500)
                 codes.append((c, rc))
                 if rc == 1 and 'VIOLATION property=' in out:
                     hit = c
